@@ -16,6 +16,14 @@ for id in $IDS; do
     [ -z "$verdict" ] && verdict=$(echo "$out" | grep -o 'PATCH-FAILED' | head -1)
     first=$(echo "$out" | grep -m1 VIOLATION | sed 's/.*# //' | cut -c1-160 | tr '\t' ' ')
     printf "%s\t%s\t%s\t%s\t%s\t%s\n" "$id" "$kind" "$name" "${verdict:-ERROR}" "$((t1-t0))" "$first" | tee -a $TMP
+    # a seeded change whose code lies in another property's anchors is also run against that property's check (seeded/<name>/also_check)
+    if [ "$kind" = seeded ] && [ -f seeded/$name/also_check ]; then
+      oid=$(cat seeded/$name/also_check); t0=$(date +%s)
+      out=$(tools/mutant.sh $oid $p quick 2>&1); t1=$(date +%s)
+      verdict=$(echo "$out" | tail -1 | grep -o 'KILLED\|SURVIVED\|PATCH-FAILED' | head -1)
+      first=$(echo "$out" | grep -m1 VIOLATION | sed 's/.*# //' | cut -c1-160 | tr '\t' ' ')
+      printf "%s\t%s\t%s\t%s\t%s\t%s\n" "$id" "seeded-via-$oid" "$name" "${verdict:-ERROR}" "$((t1-t0))" "$first" | tee -a $TMP
+    fi
   done
 done
 if [ $# -eq 0 ]; then mv $TMP $OUT; else grep -v -E "^($(echo $IDS | tr ' ' '|'))	" $OUT 2>/dev/null > $TMP.2; cat $TMP.2 $TMP | sort > $OUT; rm -f $TMP $TMP.2; fi
